@@ -5,6 +5,15 @@ ROOT = os.path.dirname(os.path.dirname(os.path.abspath(__file__)))
 
 # id -> (technique, level text, level note, design ref)
 CLAIMED = {
+ "C11": ("dominance rule (every insertion of a guardable definition by the resolver is dominated by checkFeature on it or on its clone origin, on the on-edge), loop-exit rule (feature-off stays in the sibling loop), error-flow rule for feature evaluation, field-coverage rule (every field a deviate statement stores is read in applyDeviation/checkDeviationTarget) with a once-only loop count, and an identity-comparison rule for not-supported",
+         "Decides that no guardable statement kind (data node, case, action, notification; in place, from groupings, from augments) can enter the schema unfiltered, that a disabled sibling does not take the following ones with it, that a malformed feature expression is an error, and that a deviation applies every property it states exactly once and removes a not-supported target by identity. The evaluator's precedence/associativity is a function of the expression string and is not decided; nor is the polarity of the equality tests in deviate delete.",
+         "Clone origin is followed through .clone(...) calls and type assertions; five insertion sites are exempt with reasons (re-insertion of already filtered definitions, the filtering wrapper itself).",
+         "DESIGN.md §2 C11"),
+ "C18": ("guard-dominance rule for the parent-less selection in Delete, request-literal rules (Delete flag, parent selection, own schema node, own key, request kind by InsideList, error returned), ordering/data-flow rule for ReplaceFrom (parent captured before delete, delete error stops it, insert at that parent), a nil-check contradiction rule over callback parameters (Engler-style: checked at one call site ⇒ checked at all), and a field rule that the slice index reports positions",
+         "Decides that Delete addresses exactly the selection it is called on through its parent's node, that replace is delete-then-insert with the delete's failure stopping it, that an owner callback is treated consistently on append and delete, and that the slice-backed list cuts out the entry at the position of the found key. That siblings keep their data, the behaviour of each backing store and operation histories are not decided; key uniqueness through the editor rests on C03's lookup-before-create.",
+         "Anchored on node.Selection.Delete/ReplaceFrom and nodeutil.Reflect.listSlice/sliceSorter.",
+         "DESIGN.md §2 C18"),
+
  "C04": ("exhaustiveness rule (every exported val.Format constant has a case in node.NewValue or val.Conv), typestate rule (DefaultValue() only after HasDefault() on the same receiver, by dominance), and a CFG cycle rule (every cycle through a re-issued list request passes IncrementRow)",
          "Decides three necessary conditions of faithful export: no declared type lacks a reader case (known finding: instance-identifier), schema defaults are the only values reported that the node did not return, and list iteration advances on every turn so an entry cannot be visited twice. The writer side (value table, brackets) is decided under C15. Round-trip equality for a value, visiting order and exactly-once visiting of every node are statements about runtime data and are not decided.",
          "Thin by nature: the property is mostly about values. The three rules are anchored on node.NewValue, val.Conv, editor.list, selectVisibleListItem and ListItem.Next.",
